@@ -2,8 +2,10 @@
 //! listed properties (see /verif/DESIGN.md).
 pub mod adapter;
 pub mod engine;
+pub mod gf2;
 pub mod golden;
 pub mod hexser;
+pub mod linear;
 pub mod ops;
 pub mod refmodel;
 pub mod src;
